@@ -106,7 +106,9 @@ fn date(rng: &mut Rng) -> String {
 }
 
 fn time(rng: &mut Rng) -> String {
-    let base = format!("{:02}:{:02}:{:02}", rng.below(24), rng.below(60), rng.below(60));
+    // second 60 (leap second) is valid TOML in every time
+    let sec = if rng.chance(1, 10) { 60 } else { rng.below(60) };
+    let base = format!("{:02}:{:02}:{sec:02}", rng.below(24), rng.below(60));
     match rng.below(3) {
         0 => {
             // fractions of every length: the parser keeps nine digits and drops the rest
